@@ -63,6 +63,11 @@ theorem crypto_seq_fresh_applies (al bl : List Cmd) (calls : List Call) (h : mat
   · rw [if_neg hp] at h; cases h
 
 example : freshSeqs [1, 2, 4, 65535] [true, false, true, true] 1 65535 = [3, 65534, 5, 6] := by decide
+/-- several new dynamic entries: the counter goes DOWN after each number handed out (never 65536, never a number twice) -/
+example : freshSeqs [1, 65535] [false, false, false] 1 65535 = [65534, 65533, 65532] := by decide
+example : freshSeqs [1] [false, false] 1 65535 = [65535, 65534] := by decide
+/-- later entries skip numbers the device uses as well (the search is per entry, not once) -/
+example : freshSeqs [1, 3, 4] [true, true, true] 1 65535 = [2, 5, 6] := by decide
 example : matchCryptoMap
     [{ name := "M", seq := 5, key := "set peer P1", peer := some (.static "P1") }]
     [{ name := "M", seq := 1, key := "set peer P2", peer := some (.static "P2") },
